@@ -133,6 +133,7 @@ def check(prog: Program, run: Run) -> None:
     common.run_as(run, "C02.R2", "C04.R3", lambda r: c02._atomic_sites(prog, r))
     from . import c01
     common.run_as(run, "C01.R1", "C04.R6", lambda r: c01._pairing(prog, r))
+    terminator_in_value(prog, run, "C04.R3")
     # a misaligned emplace_bytes call is reported as RuntimeError: a foreign exception
     common.run_as(run, "C02.R3", "C04.R1", lambda r: c02._emplace_alignment(prog, r))
     _required_unknown(prog, run)
@@ -225,6 +226,60 @@ def _escape(prog: Program, run: Run) -> None:
                               f"`{ast.unparse(r)}` reads the position of another key", g.loc)
     # data / mask width agreement
     _mask_width(prog, run)
+
+
+def terminator_in_value(prog: Program, run: Run, R: str = "C04.R3") -> None:
+    """MIN-MAX-LENGTH: a value that contains its own (aligned) termination sequence cannot be
+    represented -- the decoder stops at the first one. The encoder must therefore search the raw
+    value for the termination sequence and reject a hit with EncodeError."""
+    f = prog.func("MinMaxLengthType.encode_into_pdu")
+    C = "MinMaxLengthType.encode_into_pdu"
+    cfg = CFG(f.node)
+    term_names = set()
+    for x in walk_no_nested(f.node):
+        if isinstance(x, ast.Assign) and isinstance(x.targets[0], ast.Name) and isinstance(
+                x.value, ast.Call) and (call_name(x.value) or "").endswith("termination_sequence"):
+            term_names.add(x.targets[0].id)
+
+    def is_term(e: ast.AST) -> bool:
+        return (isinstance(e, ast.Name) and e.id in term_names) or (
+            isinstance(e, ast.Call) and (call_name(e) or "").endswith("termination_sequence"))
+    hit_names = set()
+    in_tests = []
+    for x in walk_no_nested(f.node):
+        if isinstance(x, ast.Call) and call_name(x) in ("find", "index", "count") and x.args and \
+                is_term(x.args[0]):
+            for a in walk_no_nested(f.node):
+                if isinstance(a, ast.Assign) and isinstance(a.targets[0], ast.Name) and any(
+                        z is x for z in ast.walk(a.value)):
+                    hit_names.add(a.targets[0].id)
+                if isinstance(a, ast.NamedExpr) and any(z is x for z in ast.walk(a.value)):
+                    hit_names.add(a.target.id)
+        if isinstance(x, ast.Compare) and len(x.ops) == 1 and isinstance(
+                x.ops[0], (ast.In, ast.NotIn)) and is_term(x.left):
+            in_tests.append(x)
+    ok = False
+    for x in walk_no_nested(f.node):
+        if isinstance(x, ast.Call) and call_name(x) == "odxraise" and "EncodeError" in \
+                ast.unparse(x):
+            st = None
+            for s_ in walk_no_nested(f.node):
+                if isinstance(s_, ast.Expr) and s_.value is x:
+                    st = s_
+            if st is None:
+                continue
+            for t, _pol in cfg.branch_conditions(cfg.node_of(st)):
+                names = {n.id for n in ast.walk(t) if isinstance(n, ast.Name)}
+                if names & hit_names or any(z is c for c in in_tests for z in ast.walk(t)):
+                    ok = True
+    if ok:
+        run.ok(R, C, "a value that contains the termination sequence is rejected with "
+               "EncodeError", f.loc)
+    else:
+        run.violation(R, C, "terminator-in-value-not-rejected",
+                      "the encoder never looks for the termination sequence inside the value: a "
+                      "value that contains it is emitted as is, the decoder stops at the first "
+                      "terminator and takes the rest for the following parameters", f.loc)
 
 
 def _mask_width(prog: Program, run: Run) -> None:
